@@ -90,11 +90,15 @@ def nth(root, idx, n, a, b):
 def level(root, op, nt, a, b):
     """Closed form of the definition in the comment block of level_check.
 
-    Scope = deepest common proper ancestor(-or-self-prefix) labelled nt (the root scope
-    if none).  n1/n2 = number of nt-labelled nodes strictly between the scope and a/b.
-    If a or b is itself labelled nt the comment does not say whether it counts: EITHER.
+    The level of a node is the number of its PROPER ancestors labelled nt below the common scope
+    (two sibling <block>s inside one <block> are at the same <block> level - the reading the word
+    "level" and the specification's {int x; {int y = x;}} example suggest).  Scope = deepest common
+    prefix of both paths labelled nt (the root scope if none).
+    Undocumented corner, EITHER: one argument is itself labelled nt AND is an ancestor of (or equal
+    to) the other one - then it is its own scope and "same level as its content" has no documented meaning.
     """
-    if at(root, a)[0] == nt or at(root, b)[0] == nt:
+    la, lb = at(root, a)[0], at(root, b)[0]
+    if (la == nt and b[: len(a)] == a) or (lb == nt and a[: len(b)] == b):
         return EITHER
     scope = ()
     k = 0
